@@ -16,12 +16,22 @@ def nontrivial(case, impl, model, oracle):
 CHECK, MANIFEST = srvgen.make_check(
     "C08", "Props/C08.v",
     ["c08_early_is_final", "c08_undelimitable_additional", "c08_second_opt", "c08_tsig_not_last", "c08_an_ns",
-     "c08_query_without_question", "c08_data_only_if_clean"],
+     "c08_query_without_question", "c08_data_only_if_clean",
+     "c08_first_problem", "c08_formerr_iff_first_problem", "c08_formerr_response", "c08_badvers_response",
+     "c08_clean_reaches_dispatch", "c08_silent_iff_first_problem"],
     srvgen.oracle_c08, gen, nontrivial, srvgen.std_classify,
     ("Coq theorems (no axioms) on the model of the server's request pre-processing: whatever it decides (FORMERR for an "
      "unparseable question, an undelimitable record, OPT/TSIG outside the additional section, a second OPT, a TSIG that is not "
      "last, trailing octets; or an EDNS/TSIG outcome found earlier) is final — nothing later replaces the RCODE — and carries no "
      "data; a QUERY without question is FORMERR; data only ever accompanies a request that passed every check. Two defects of the "
      "pinned tree (FORMERR overwritten by query processing; ordinary additional records never skipped) were repaired by fix: "
-     "commits. Tied to the code by a differential run of mutated requests; the model's verdict is the oracle on every response."),
+     "commits. SPEC-LEVEL CLASSIFIER: first_problem (Spec/MsgWalkS.v) reads the request in message order with the spec decoders "
+     "only (spec_decode_name, big-endian fields, 'delimit a record' = first label sequence + 10 fixed octets + RDLENGTH in bounds, "
+     "RFC 6891 option tiling, RFC 8945 TSIG RDATA layout) and names the first problem (question unparseable, record i "
+     "undelimitable, OPT/TSIG outside the additional section, second OPT, malformed OPT, TSIG not last / malformed incl. class and "
+     "TTL, QUERY without question, trailing octets) or an earlier EDNS version error / reached TSIG; c08_first_problem proves the "
+     "model's pre-processing decides EXACTLY that verdict for every request, c08_formerr_iff_first_problem the iff (FORMERR exactly "
+     "when the first problem is FORMERR-class, unless a well-formed last TSIG was reached first: then key lookup / HMAC decide), "
+     "c08_formerr_response / c08_badvers_response what is sent (FORMERR resp. BADVERS, no data, no TSIG). The extracted classifier "
+     "is evaluated on every implementation response in addition to the model-as-oracle."),
     "machine-checked proof in Coq (invariant of the pre-scan for all requests) + correspondence check with the model as oracle")
